@@ -5,7 +5,17 @@
    Abstractions (said once, here):
    * a part = one `session_priv` (one HTLC / path); `session_privs: HashSet` is a `List` used only through
      membership / filter / emptiness, so duplicates in the list are harmless;
-   * amounts, fees, routes, preimages are not modelled (the harness oracles check them on the real code);
+   * a part's amount is `amt part` (`path.final_value_msat()`; `amt : PartId → Nat` is a field of the global state
+     that no op changes) and a Retryable entry carries `pending_amt_msat` / `total_msat`; fees, routes, preimages
+     are not modelled (the harness oracles check them on the real code);
+   * one send / retry call is the op `sendR` / `retryR`: it carries, per path, what `send_payment_along_path`
+     answers (`ok`, `mip` = Err(MonitorUpdateInProgress): the HTLC IS in flight, `err` = any other Err: never
+     sent) or `bad` (the path fails pay_route_internal's parameter check: nothing is sent at all); what
+     pay_route_internal / handle_pay_route_err make of the result vector is `Generated/OutboundSend.lean`
+     (translated from the Rust text on every run); the follow-up `find_route_and_send_payment` of
+     handle_pay_route_err is the NEXT op (`retryR` / `abandon .. routeNotFound`), announced by `Out.retryNext`;
+   * `send` / `retry` are the all-paths-went-out special cases (`add_new_pending_payment` alone, and a retry whose
+     paths all return Ok);
    * `is_auto_retryable_now()` and `payment_failed_permanently` are inputs of the op (`fail … auto perm`,
      `sweep autoIds`, `retry … now`): the theorems therefore hold for every retry strategy incl. `Retry::Timeout`;
    * BOLT12 pre-HTLC states (AwaitingInvoice / InvoiceReceived / StaticInvoiceReceived) are one coarse state
@@ -13,10 +23,38 @@
    * `debug_assert!(false)` / `assert!` sites reached by an op (claim/fail of a pre-HTLC payment, finalize of a
      non-fulfilled one) are reported as `panic` with no other effect (the harness builds with debug assertions). -/
 import LdkModel.Generated.Consts
+import LdkModel.Generated.OutboundSend
 namespace Ldk.OutboundPay
+open Ldk.OutboundSendGen
 
 abbrev PayId := Nat
 abbrev PartId := Nat
+/-- `path.final_value_msat()` of the path that belongs to a part (session priv) -/
+abbrev Amt := PartId → Nat
+
+/-- Σ of the path amounts of a list of parts -/
+def sumAmt (amt : Amt) (ps : List PartId) : Nat := (ps.map amt).sum
+
+/-- what happens to one path of a send / retry call: the answer of `send_payment_along_path` (`ok`; `mip` =
+    Err(MonitorUpdateInProgress); `err` = any other Err), or `bad`: the path fails pay_route_internal's parameter
+    check (then no path of the call is handed to `send_payment_along_path`) -/
+inductive PathIn
+  | ok | mip | err | bad
+  deriving DecidableEq, Repr, Inhabited
+
+/-- the `Result<(), APIError>` of the send loop -/
+def PathIn.sendRes : PathIn → PathRes
+  | .ok => .ok | .mip => .mip | _ => .err
+/-- the entry of `path_errs` -/
+def PathIn.checkRes : PathIn → PathRes
+  | .bad => .err | _ => .ok
+/-- GROUND TRUTH (not taken from outbound_payment.rs): after `send_payment_along_path` answered, is the HTLC
+    committed to the first-hop channel?  `Ok`: yes.  `MonitorUpdateInProgress`: yes — ChannelManager returns it
+    after `send_htlc_and_commit` succeeded, the update_add goes out when the monitor update completes.  Any other
+    error: no. -/
+def PathIn.inFlight : PathIn → Bool
+  | .ok | .mip => true
+  | _ => false
 
 /-- `events::PaymentFailureReason` (the variants this module produces) -/
 inductive Reason
@@ -28,7 +66,7 @@ inductive Reason
 inductive PState
   | absent
   | preHtlc (ticksLeft : Nat)
-  | retryable (parts : List PartId)
+  | retryable (parts : List PartId) (pend total : Nat)
   | fulfilled (parts : List PartId) (ticksWithoutParts : Nat)
   | abandoned (parts : List PartId) (reason : Reason)
   deriving DecidableEq, Repr, Inhabited
@@ -50,11 +88,15 @@ structure Out where
   evs : List Ev := []
   dup : Bool := false
   panic : Bool := false
+  /-- the parts handed to `send_payment_along_path` by this call, in order -/
+  tried : List PartId := []
+  /-- handle_pay_route_err goes on with `find_route_and_send_payment` (the next op) -/
+  retryNext : Bool := false
   deriving DecidableEq, Repr, Inhabited
 
 /-- mirrors `PendingOutboundPayment::remaining_parts` (as a list) -/
 def PState.parts : PState → List PartId
-  | .retryable ps | .fulfilled ps _ | .abandoned ps _ => ps
+  | .retryable ps _ _ | .fulfilled ps _ | .abandoned ps _ => ps
   | _ => []
 
 /-- mirrors `PendingOutboundPayment::is_fulfilled` -/
@@ -64,7 +106,7 @@ def PState.isFulfilled : PState → Bool
 
 /-- states that own HTLCs (Retryable / Fulfilled / Abandoned) -/
 def PState.hasHtlcState : PState → Bool
-  | .retryable _ | .fulfilled _ _ | .abandoned _ _ => true
+  | .retryable _ _ _ | .fulfilled _ _ | .abandoned _ _ => true
   | _ => false
 
 /-- `session_privs.remove(p)` -/
@@ -83,6 +125,8 @@ inductive POp
   | sweep (auto : Bool)
   | tick (pendingEv : Bool)
   | insert (part : PartId)
+  | sendR (paths : List (PartId × PathIn)) (noSecret : Bool)
+  | retryR (paths : List (PartId × PathIn)) (now : Bool) (noSecret : Bool)
   deriving DecidableEq, Repr
 
 /-- `mark_abandoned(reason)` followed by "`remaining_parts() == 0` ⇒ push `PaymentFailed`, remove the entry"
@@ -90,11 +134,64 @@ inductive POp
 def abandonNow (id : PayId) (ps : List PartId) (r : Reason) (pre : List Ev) : PState × Out :=
   if ps.isEmpty then (.absent, { evs := pre ++ [.failed id r] }) else (.abandoned ps r, { evs := pre })
 
+/-- mirrors OutboundPayments::abandon_payment (`pre` = events already pushed by the caller) -/
+def abandonP (id : PayId) (st : PState) (r : Reason) (pre : List Ev) : PState × Out :=
+  match st with
+  | .preHtlc _ => (.absent, { evs := pre ++ [.failed id r] })
+  | .retryable ps _ _ => abandonNow id ps r pre
+  | .abandoned ps r0 => abandonNow id ps r0 pre
+  | _ => (st, { evs := pre })
+
+/-- `assert!(payment.insert(session_priv, path))` for every path of a route (create_pending_payment,
+    find_route_and_send_payment): the new session privs are pairwise distinct and none is in the set yet -/
+def freshFor (ps parts : List PartId) : Bool := decide parts.Nodup && parts.all fun p => !ps.contains p
+
+/-- mirrors `PendingOutboundPayment::remove(session_priv, Some(path))` -/
+def removeSent (amt : Amt) (p : PartId) : PState → PState
+  | .retryable ps pe to =>
+    if ps.contains p then .retryable (removePart p ps) (removeAdjustsPending true pe (amt p)) to else .retryable ps pe to
+  | .fulfilled ps t => .fulfilled (removePart p ps) t
+  | .abandoned ps r => .abandoned (removePart p ps) r
+  | st => st
+
+/-- mirrors OutboundPayments::handle_pay_route_err without its final `find_route_and_send_payment` (that is the
+    next op, `retryNext`): `remove_session_privs` of the paths picked by the arm, `push_path_failed_evs_and_scids`,
+    then retry / `abandon_payment(UnexpectedError)` / nothing.  `res` = the per-path results handed to the arm -/
+def handleErr (amt : Amt) (id : PayId) (st : PState) (k : SendKind) (res : List (PartId × PathRes))
+    (tried : List PartId) : PState × Out :=
+  let st1 := (res.filter fun x => handleRemoves k x.2).foldl (fun s x => removeSent amt x.1 s) st
+  let evs := if handlePushes k then
+      res.filterMap fun x => if pathFailedPushed x.2 then some (Ev.pathFailed id x.1) else none
+    else []
+  match handleNext k with
+  | .retry => (st1, { evs := evs, tried := tried, retryNext := true })
+  | .abandonUnexpectedError =>
+    ((abandonP id st1 .unexpectedError evs).1, { evs := (abandonP id st1 .unexpectedError evs).2.evs, tried := tried })
+  | .none => (st1, { evs := evs, tried := tried })
+
+/-- the fold of pay_route_internal's result loop -/
+def flagsOf (amt : Amt) (res : List (PartId × PathRes)) : Flags :=
+  res.foldl (fun f x => flagsStep x.2 (amt x.1) f) {}
+
+/-- mirrors OutboundPayments::pay_route_internal followed by `if let Err(e) = res { handle_pay_route_err(e, ..) }`
+    (both callers), on the entry `st` that already holds the session privs of `paths` -/
+def payRoute (amt : Amt) (id : PayId) (st : PState) (paths : List (PartId × PathIn)) (noSecret : Bool) : PState × Out :=
+  if paramError paths.length noSecret false then
+    handleErr amt id st .parameterError (paths.map fun x => (x.1, PathRes.err)) []
+  else if paths.any (fun x => x.2 == .bad) then
+    handleErr amt id st .pathParameterError (paths.map fun x => (x.1, x.2.checkRes)) []
+  else
+    match sendKindOf (flagsOf amt (paths.map fun x => (x.1, x.2.sendRes))) with
+    | .sentAll => (st, { tried := paths.map (·.1) })
+    | k => handleErr amt id st k (paths.map fun x => (x.1, x.2.sendRes)) (paths.map (·.1))
+
 /-- the per-payment transition function -/
-def stepP (id : PayId) (st : PState) : POp → PState × Out
+def stepP (amt : Amt) (id : PayId) (st : PState) : POp → PState × Out
   -- mirrors OutboundPayments::add_new_pending_payment (Entry::Occupied ⇒ DuplicatePayment)
   | .send parts => match st with
-    | .absent => (.retryable parts, {})
+    | .absent =>
+      if freshFor [] parts then (.retryable parts (sumAmt amt parts) (sumAmt amt parts), { tried := parts })
+      else (st, { panic := true })
     | _ => (st, { dup := true })
   -- mirrors OutboundPayments::add_new_awaiting_invoice
   | .await t => match st with
@@ -102,13 +199,15 @@ def stepP (id : PayId) (st : PState) : POp → PState × Out
     | _ => (st, { dup := true })
   -- coarse: send_payment_for_bolt12_invoice_internal (pre-HTLC state replaced by Retryable with the route's parts)
   | .invoice parts => match st with
-    | .preHtlc _ => (.retryable parts, {})
+    | .preHtlc _ =>
+      if freshFor [] parts then (.retryable parts (sumAmt amt parts) (sumAmt amt parts), { tried := parts })
+      else (st, { panic := true })
     | _ => (st, { dup := true })
   -- mirrors OutboundPayments::claim_htlc
   | .claim p oc => match st with
     | .absent => (st, {})
     | .preHtlc _ => (st, { panic := true })
-    | .retryable ps | .abandoned ps _ =>
+    | .retryable ps _ _ | .abandoned ps _ =>
       if oc && ps.contains p then (.fulfilled (removePart p ps) 0, { evs := [.sent id, .pathOk id p] })
       else (.fulfilled ps 0, { evs := [.sent id] })
     | .fulfilled ps t =>
@@ -123,26 +222,28 @@ def stepP (id : PayId) (st : PState) : POp → PState × Out
     | .absent => (st, {})
     | .preHtlc _ => (st, { panic := true })
     | .fulfilled ps t => (.fulfilled (removePart p ps) t, {})
-    | .retryable ps =>
+    | .retryable ps pe to =>
       if !ps.contains p then (st, {}) else
-      if auto && !perm then (.retryable (removePart p ps), { evs := [.pathFailed id p] })
+      if auto && !perm then
+        (.retryable (removePart p ps) (removeAdjustsPending true pe (amt p)) to, { evs := [.pathFailed id p] })
       else abandonNow id (removePart p ps) (if perm then .recipientRejected else .retriesExhausted) [.pathFailed id p]
     | .abandoned ps r =>
       if !ps.contains p then (st, {}) else abandonNow id (removePart p ps) r [.pathFailed id p]
   -- mirrors OutboundPayments::abandon_payment
-  | .abandon r => match st with
-    | .preHtlc _ => (.absent, { evs := [.failed id r] })
-    | .retryable ps => abandonNow id ps r []
-    | .abandoned ps r0 => abandonNow id ps r0 []
-    | _ => (st, {})
-  -- mirrors OutboundPayments::find_route_and_send_payment once a route was found (`now` = is_retryable_now())
+  | .abandon r => abandonP id st r []
+  -- mirrors OutboundPayments::find_route_and_send_payment once a route was found (`now` = is_retryable_now()),
+  -- every path answering Ok
   | .retry parts now => match st with
-    | .retryable ps => if now then (.retryable (ps ++ parts), {}) else abandonNow id ps .retriesExhausted []
+    | .retryable ps pe to =>
+      if retryOverflows (sumAmt amt parts) pe to then abandonNow id ps .unexpectedError []
+      else if !now then abandonNow id ps .retriesExhausted []
+      else if !freshFor ps parts then (st, { panic := true })
+      else (.retryable (ps ++ parts) (pe + sumAmt amt parts) to, { tried := parts })
     | .preHtlc _ => (st, { panic := true })
     | _ => (st, {})
   -- mirrors the `retain` at the end of OutboundPayments::check_retry_payments
   | .sweep auto => match st with
-    | .retryable ps => if !auto && ps.isEmpty then (.absent, { evs := [.failed id .retriesExhausted] }) else (st, {})
+    | .retryable ps _ _ => if !auto && ps.isEmpty then (.absent, { evs := [.failed id .retriesExhausted] }) else (st, {})
     | .abandoned ps r => if ps.isEmpty then (.absent, { evs := [.failed id r] }) else (st, {})
     | _ => (st, {})
   -- mirrors OutboundPayments::remove_stale_payments (`pendingEv` = a PaymentSent / PaymentPathSuccessful /
@@ -156,8 +257,27 @@ def stepP (id : PayId) (st : PState) : POp → PState × Out
     | _ => (st, {})
   -- mirrors OutboundPayments::insert_from_monitor_on_startup
   | .insert p => match st with
-    | .absent | .preHtlc _ => (.retryable [p], {})
-    | .retryable ps => if ps.contains p then (st, {}) else (.retryable (ps ++ [p]), {})
+    | .absent | .preHtlc _ => (.retryable [p] (amt p) (amt p), {})
+    | .retryable ps pe to =>
+      if ps.contains p then (st, {}) else (.retryable (ps ++ [p]) (insertAdjustsPending true pe (amt p)) to, {})
+    | _ => (st, {})
+  -- mirrors OutboundPayments::send_payment_for_non_bolt12_invoice after the route was found:
+  -- add_new_pending_payment, pay_route_internal, handle_pay_route_err (up to its find_route_and_send_payment)
+  | .sendR paths noSecret => match st with
+    | .absent =>
+      if freshFor [] (paths.map (·.1)) then
+        payRoute amt id (.retryable (paths.map (·.1)) (sumAmt amt (paths.map (·.1))) (sumAmt amt (paths.map (·.1)))) paths noSecret
+      else (st, { panic := true })
+    | _ => (st, { dup := true })
+  -- mirrors OutboundPayments::find_route_and_send_payment once a route was found: overflow test, is_retryable_now,
+  -- insertion of the new session privs, pay_route_internal, handle_pay_route_err (up to its retry)
+  | .retryR paths now noSecret => match st with
+    | .retryable ps pe to =>
+      if retryOverflows (sumAmt amt (paths.map (·.1))) pe to then abandonNow id ps .unexpectedError []
+      else if !now then abandonNow id ps .retriesExhausted []
+      else if !freshFor ps (paths.map (·.1)) then (st, { panic := true })
+      else payRoute amt id (.retryable (ps ++ paths.map (·.1)) (pe + sumAmt amt (paths.map (·.1))) to) paths noSecret
+    | .preHtlc _ => (st, { panic := true })
     | _ => (st, {})
 
 /-! ### the whole map, the pending-event queue, the persisted snapshot -/
@@ -184,6 +304,8 @@ inductive Op
   | sweep (autoIds : List PayId)
   | tick
   | insert (id : PayId) (part : PartId)
+  | sendR (id : PayId) (paths : List (PartId × PathIn)) (noSecret : Bool)
+  | retryR (id : PayId) (paths : List (PartId × PathIn)) (now : Bool) (noSecret : Bool)
   | handle      -- the user drained `pending_events`
   | persist     -- the ChannelManager (map + pending events) was written
   | restore     -- the process restarted from the last written ChannelManager
@@ -194,7 +316,8 @@ structure State where
   queue : List Ev := []
   snapCur : Store := []
   snapQueue : List Ev := []
-  deriving Repr
+  /-- the amount of each part's path; no op changes it -/
+  amt : Amt := fun _ => 0
 
 def init : State := {}
 
@@ -217,16 +340,18 @@ def proj (id : PayId) (s : State) : Op → Option POp
   | .sweep autoIds => some (.sweep (autoIds.contains id))
   | .tick => some (.tick (pendingFor id s.queue))
   | .insert i p => if i = id then some (.insert p) else none
+  | .sendR i ps ns => if i = id then some (.sendR ps ns) else none
+  | .retryR i ps n ns => if i = id then some (.retryR ps n ns) else none
   | .handle | .persist | .restore => none
 
 def one (s : State) (id : PayId) (pop : POp) : State × Out :=
-  let r := stepP id (get s.cur id) pop
+  let r := stepP s.amt id (get s.cur id) pop
   ({ s with cur := set s.cur id r.1, queue := s.queue ++ r.2.evs }, r.2)
 
 /-- an op applied to every entry of the map (`retain`) -/
 def all (s : State) (f : PayId → POp) : State × Out :=
-  let evs := s.cur.flatMap fun e => (stepP e.1 e.2 (f e.1)).2.evs
-  ({ s with cur := s.cur.map (fun e => (e.1, (stepP e.1 e.2 (f e.1)).1)), queue := s.queue ++ evs }, { evs := evs })
+  let evs := s.cur.flatMap fun e => (stepP s.amt e.1 e.2 (f e.1)).2.evs
+  ({ s with cur := s.cur.map (fun e => (e.1, (stepP s.amt e.1 e.2 (f e.1)).1)), queue := s.queue ++ evs }, { evs := evs })
 
 def step (s : State) : Op → State × Out
   | .send i ps => one s i (.send ps)
@@ -238,6 +363,8 @@ def step (s : State) : Op → State × Out
   | .abandon i r => one s i (.abandon r)
   | .retry i ps n => one s i (.retry ps n)
   | .insert i p => one s i (.insert p)
+  | .sendR i ps ns => one s i (.sendR ps ns)
+  | .retryR i ps n ns => one s i (.retryR ps n ns)
   | .sweep autoIds => all s fun k => .sweep (autoIds.contains k)
   | .tick => all s fun k => .tick (pendingFor k s.queue)
   | .handle => ({ s with queue := [] }, {})
@@ -259,6 +386,34 @@ def restartOps (view : List (PayId × PartId × Res)) : List Op :=
   (view.map fun v => Op.insert v.1 v.2.1) ++
   (view.filterMap fun v => match v.2.2 with | .claimed => some (Op.claim v.1 v.2.1 true) | _ => none) ++
   (view.filterMap fun v => match v.2.2 with | .failed a pm => some (Op.fail v.1 v.2.1 a pm) | _ => none)
+
+/-! ### ground truth: which HTLCs of a payment are in flight (an observer of the two interfaces only)
+
+    `flightP` does not look at the payment's entry: a part enters the in-flight set when the call handed it to
+    `send_payment_along_path` (`Out.tried`) and the answer was `Ok` or `MonitorUpdateInProgress` (`PathIn.inFlight`);
+    it leaves the set when its HTLC is resolved towards the payment: `fail_htlc`, `finalize_claims` (the RAA that
+    removes a fulfilled HTLC), or `claim_htlc(.., from_onchain = true)`.  A call that panics has no effect. -/
+
+/-- the parts of a call that are in flight afterwards -/
+def accepted (tried : List PartId) (paths : List (PartId × PathIn)) : List PartId :=
+  (paths.filter fun x => tried.contains x.1 && x.2.inFlight).map (·.1)
+
+def flightP (fl : List PartId) (pop : POp) (out : Out) : List PartId :=
+  if out.panic then fl else
+  match pop with
+  | .send _ | .invoice _ | .retry _ _ => fl ++ out.tried
+  | .sendR paths _ | .retryR paths _ _ => fl ++ accepted out.tried paths
+  | .claim p true | .finalize p | .fail p _ _ => removePart p fl
+  | _ => fl
+
+/-- the in-flight set of payment `id` after `ops`, starting from `fl` in state `s` -/
+def flight (id : PayId) : State → List PartId → List Op → List PartId
+  | _, fl, [] => fl
+  | s, fl, op :: rest =>
+    flight id (step s op).1
+      (match proj id s op with
+        | some pop => flightP fl pop (stepP s.amt id (get s.cur id) pop).2
+        | none => fl) rest
 
 def nSent (id : PayId) (evs : List Ev) : Nat := (evs.filter (· == Ev.sent id)).length
 def isFailedFor (id : PayId) : Ev → Bool
